@@ -15,6 +15,10 @@ pub fn deadline_exceeded(deadline: Option<Instant>) -> bool {
     #[allow(unreachable_code)]
     match deadline {
         Some(deadline) => {
+            #[cfg(similar_verif)]
+            if let Some(answer) = crate::verif::clock_probe() {
+                return answer;
+            }
             #[cfg(all(target_arch = "wasm32", not(feature = "wasm32_web_time")))]
             {
                 return false;
